@@ -145,12 +145,16 @@ def r2_counts_and_margin(ctx):
               f"completion is `{d}`")
     keep = [c for c in astx.calls_in(f.node, "append") if c.args and isinstance(c.args[0], ast.Name)]
     goodk = False
+    kept_sites = 0
     for c in keep:
         lits = literals(Normalizer(f.node, inline=False, int_atoms=lambda a: True).conj(astx.path_condition(f.node, c, pm)))
         loops = [l for l in astx.enclosing_loops(c, pm, f.node) if isinstance(l, ast.For)]
         if len(loops) == 1 and astx.u(c.args[0]) == astx.u(loops[0].target):
+            # every place that carries a ballot over unchanged does so only for full-length ballots
             negs = {(l[4:] if l.startswith("not ") else "not " + l) for l in fill_lits if "ballot_length" in l or f.params[2] in l}
-            goodk = bool(negs) and negs <= lits
+            ok_here = bool(negs) and negs <= lits
+            goodk = ok_here if kept_sites == 0 else (goodk and ok_here)
+            kept_sites += 1
     ctx.check(goodk, f, f.node, "full-length ballots are kept unchanged", "", "complete ballots are not carried over unchanged")
     # compute_pairwise_dict: the guarded stores of the pair loop, evaluated on the three sign regions of
     # d = h(a,b) - h(b,a)  (finite case split; nothing is executed)
@@ -237,6 +241,12 @@ def r2_counts_and_margin(ctx):
             e = astx.u(lp.target) if lp is not None else "?"
             good = lp is not None and astx.u(lp.iter) == "self.pairwise_dict" and [astx.u(x) for x in edges[0].args] == [f"{e}[0]", f"{e}[1]"] \
                 and kw == {"weight": f"self.pairwise_dict[{e}]"}
+    if len(edges) == 1:
+        # one edge per stored margin: nothing in the loop decides whether the edge is added
+        pme = astx.parents(f.node)
+        lp = astx.enclosing(edges[0], pme, ast.For)
+        if lp is not None and (pme.get(astx.stmt_of(edges[0], pme)) is not lp or any(isinstance(x, (ast.Continue, ast.Break, ast.Return)) for x in ast.walk(lp))):
+            good = False
     nodes = astx.calls_in(f.node, "add_nodes_from")
     good = good and len(nodes) == 1 and astx.u(nodes[0].args[0]) == "self.candidates"
     ctx.check(good, f, edges[0] if edges else f.node, "graph: all candidates are nodes; an edge key[0] -> key[1] per stored margin", "", "graph construction changed orientation or node set")
